@@ -67,7 +67,7 @@ CLAIMED = {
         text="Generic codec over the generated type descriptors (uint/sint/LVBytes/FixedList/LVList/greedy List/raw Bytes/Struct/optional tail) with mutual ser/de: round trip de(ser v ++ rest) = (v, rest) for every prefix-free descriptor and every value (mutual induction); "
         "schema round trip with no bytes left for prefix-free fields followed by at most one raw/optional tail; header round trip for the three layouts and their literal bytes; decide +kernel over all 11 generated tables: frame IDs unique, names unique, IDs fit the header, schemas valid, greedy/optional last, argument names unique; "
         "corollary for every version, every command with a covered rx schema and every value tuple: the receive path (header parse → table lookup → decode) returns that command with exactly those values and nothing left; serialize_dict argument resolution: positional ≡ keyword. "
-        "Tie: tables regenerated from the imported command modules every run + differential for every (version, command) pair (2 751): payloads from an independent descriptor-driven encoder through the real handler __call__ and _ezsp_frame (positional / keyword / reversed-keyword / mixed), compared with model and specification layout.",
+        "Tie: tables regenerated from the imported command modules every run + differential for every (version, command) pair (2 751): payloads from an independent descriptor-driven encoder through the real handler __call__ and _ezsp_frame (positional / keyword / reversed-keyword / mixed), compared with model and specification layout. Source-level: _ezsp_frame_tx / _ezsp_frame_rx of EZSPv4, EZSPv5 and EZSPv8 are translated from the syntax trees on every run (BV/Gen/SrcHdrV4/5/8.lean) and proved equal to the header model (BV/Proofs/Src/Hdr.lean; c07_src_tx_headers, c07_src_rx_headers, c07_src_header_roundtrip); which class serves which protocol version is reflection data checked against the model (c07_src_header_classes).",
         ref="6 C07",
         technique="Lean 4 proof (mutual structural induction for the codec, decide +kernel over generated command tables) + exhaustive-over-commands differential vs real _ezsp_frame / __call__",
         note="Rows whose rx schema ends in a greedy list, nests an optional field in a trailing struct, or has the requires-conditioned field (4 commands) are outside the round-trip theorem (counted by c07_rx_coverage) and covered by the differential only. zigpy's type classes are modelled via the descriptor lowering. ",
